@@ -347,13 +347,11 @@ def stepCommon (cfg : Cfg) (σ : Inst) (op obs : List String) : Option (Inst × 
       (match sc with | .ids l => l.contains x.sil.id | _ => true) &&
       (match q.states with | none => true | some l => l.contains (getState x.sil now)) &&
       (match q.ls with | none => true | some l => matchesSets reFrag x.sil.sets l)
-    let dupIds := match sc with | .ids l => l.length | _ => 0
     let spec := joinList "." (sortStrs (brute.map (·.sil.id)))
     let pf := match sc with
       | .since _ => []
       | .ids l => if l.eraseDups.length = l.length ∧ spec ≠ ids then [Msg.propfail "query_eq_filter" "query-mismatch" s!"query={ids} brute={spec}"] else []
       | .all => if spec ≠ ids then [Msg.propfail "query_eq_filter" "query-mismatch" s!"query={ids} brute={spec}"] else []
-    let _ := dupIds
     some (σ, expectEq "query.version" (toString σ.store.version) ver ++ expectEq "query.ids" m ids ++ pf ++
       [.tag (match sc with | .all => "query:all" | .ids _ => "query:ids" | .since _ => "query:since")])
   | ["reload"], [ver, dmp] =>
